@@ -3,6 +3,9 @@ CONSTANTS
   Codec = "bijective"
   Place = "byref"
   Window = 1
+  WindowRows = 1
+  MergeMode = "all"
+  Ordered = FALSE
   Offsets = {}
   Rects = {}
   MaxCells = 1000000
